@@ -113,21 +113,81 @@ def method_argument(opt, kw):
     raise ValueError(form)
 
 
+# The published signatures of the pinned tree (frozen here on purpose: a parameter inserted in the middle of a
+# signature, or renamed, must show up as a wrong result of the positional / keyword call forms).
+SIGNATURES = {
+    "svd_interface": ["matrix", "method", "n_eigenvecs", "flip_sign", "u_based_flip_sign", "non_negative", "mask", "n_iter_mask_imputation"],
+    "truncated_svd": ["matrix", "n_eigenvecs"],
+    "symeig_svd": ["matrix", "n_eigenvecs"],
+    "randomized_svd": ["matrix", "n_eigenvecs", "n_oversamples", "n_iter", "random_state"],
+    "svd_flip": ["U", "V", "u_based_decision"],
+    "make_svd_non_negative": ["tensor", "U", "S", "V", "nntype"],
+}
+HOW_DEFAULT = {"cform": "mixed", "entry": "svd", "path": "interface", "retry": False}
+
+
+def invoke(fn, name, values, cform, extra=None):
+    """Calls fn with `values` (dict over SIGNATURES[name]; absent = leave the default) in the call form cform."""
+    names = SIGNATURES[name]
+    extra = dict(extra or {})
+    if cform == "pos":
+        last = max(k for k, nme in enumerate(names) if nme in values)
+        args = [values[nme] for nme in names[:last + 1]]        # every leading parameter must be given to go positional
+        return fn(*args, **extra)
+    if cform == "kw":
+        return fn(**{nme: values[nme] for nme in names if nme in values}, **extra)
+    first = names[0]
+    return fn(values[first], **{nme: values[nme] for nme in names[1:] if nme in values}, **extra)
+
+
+def _module(entry):
+    import tensorly as tl
+    from tensorly import tenalg
+    from tensorly.tenalg import svd as tsvd
+    return {"svd": tsvd, "tenalg": tenalg, "tl": tl}[entry]
+
+
+def nn_value(opt):
+    sp = opt.get("nnspell") or {"off": "omitted", "nndsvda": "true", "nndsvd": "name"}[opt["nonneg"]]
+    return {"omitted": "omit", "none": None, "false": False, "true": True, "name": opt["nonneg"]}[sp]
+
+
 def _call(A, opt, seed):
     from tensorly.tenalg import svd as tsvd
-    kw = {"n_eigenvecs": None if opt["k"] == 0 else opt["k"], "random_state": seed}
-    if opt["method"] == "randomized_svd":
-        kw["n_oversamples"] = opt["over"]
-        kw["n_iter"] = opt["niter"]
-    if opt["mask"] == "ones":
-        kw["mask"] = np.ones(A.shape)
-    if opt["via"] == "direct":
-        return getattr(tsvd, opt["method"])(A, **kw)
+    cform, entry, path = opt.get("cform", "mixed"), opt.get("entry", "svd"), opt.get("path", "interface")
+    k = None if opt["k"] == 0 else opt["k"]
+    sketch = {"n_oversamples": opt["over"], "n_iter": opt["niter"]} if opt["method"] == "randomized_svd" else {}
+    if opt.get("retry"):                 # a previous call that failed half-way and was caught by the caller
+        try:
+            tsvd.svd_interface(A, method="no_such_svd", n_eigenvecs=k)
+        except ValueError:
+            pass
+    if opt["via"] == "direct" or path == "helpers":
+        name = opt["method"]
+        fn = getattr(_module(entry if name == "truncated_svd" else "svd"), name)
+        vals = {"matrix": A, "n_eigenvecs": k}
+        if name == "randomized_svd":
+            vals.update(sketch, random_state=seed)
+            U, S, V = invoke(fn, name, vals, cform)
+        else:
+            U, S, V = invoke(fn, name, vals, cform, extra={} if cform == "pos" else {"random_state": seed})
+        if opt["via"] == "direct":
+            return U, S, V
+        if opt["flip"] != "off":
+            U, V = invoke(tsvd.svd_flip, "svd_flip", {"U": U, "V": V, "u_based_decision": opt["flip"] != "V"}, cform)
+        nn = nn_value(opt)
+        if opt["nonneg"] != "off":
+            U, V = invoke(tsvd.make_svd_non_negative, "make_svd_non_negative", {"tensor": A, "U": U, "S": S, "V": V, "nntype": nn}, cform)
+        return U, S, V
+    kw = dict(sketch, random_state=seed)
     method = method_argument(opt, kw)
-    if opt["nonneg"] != "off":
-        kw["non_negative"] = NN_ARG[opt["nonneg"]]
-    return tsvd.svd_interface(A, method=method, flip_sign=opt["flip"] != "off",
-                              u_based_flip_sign=opt["flip"] != "V", **kw)
+    vals = {"matrix": A, "method": method, "n_eigenvecs": k, "flip_sign": opt["flip"] != "off", "u_based_flip_sign": opt["flip"] != "V"}
+    nn = nn_value(opt)
+    if nn != "omit" or cform == "pos" and opt["mask"] == "ones":
+        vals["non_negative"] = None if nn == "omit" else nn
+    if opt["mask"] == "ones":
+        vals["mask"] = np.ones(A.shape)
+    return invoke(_module(entry).svd_interface, "svd_interface", vals, cform, extra=kw)
 
 
 def qf(x, scale=10**8):
@@ -166,6 +226,9 @@ def one_run(A, opt, seed):
     fin = out["fin"]
     out["pow2"] = int(opt.get("pow2", 0))
     out["form"] = opt.get("form", "lambda" if opt["method"] == "callable" else "name")
+    out["cform"], out["entry"], out["path"] = opt.get("cform", "mixed"), opt.get("entry", "svd"), opt.get("path", "interface")
+    out["retry"] = bool(opt.get("retry", False))
+    out["nnspell"] = opt.get("nnspell") or {"off": "omitted", "nndsvda": "true", "nndsvd": "name"}[opt["nonneg"]]
     unit = 2.0 ** out["pow2"]
     try:
         with np.errstate(all="ignore"):
@@ -199,7 +262,7 @@ def one_run(A, opt, seed):
         # diagnosis only (never read by the trace spec): does some singular pair have neither a
         # positive nor a negative rank-one part?  (the 0/0 of make_svd_non_negative, F-05b)
         try:
-            U0, S0, V0 = (np.asarray(x) for x in _call(A, dict(opt, nonneg="off"), seed))
+            U0, S0, V0 = (np.asarray(x) for x in _call(A, dict(opt, nonneg="off", nnspell=None), seed))
             for j in range(1, min(U0.shape[1], V0.shape[0])):
                 x, y = U0[:, j], V0[j, :]
                 mp = np.linalg.norm(np.clip(x, 0, None)) * np.linalg.norm(np.clip(y, 0, None))
@@ -225,6 +288,9 @@ def execute(case):
         cfg = dict(cfg, rank=rank)
         ev = {"id": case["id"], "cfg": cfg, "spec_q": [qf(x, 10**6)[0] for x in s], "tail2_q": [qf(x, 10**6)[0] for x in tails],
               "negmean": bool(A.mean() < 0), "hasneg": bool((A < 0).any())}
+    ev["zeros"] = case.get("zeros", "pos")
+    if ev["zeros"] != "pos":
+        A = np.where(A == 0, -0.0 if ev["zeros"] == "neg" else 5e-324, A)
     ev["runs"] = [one_run(A, opt, case["seed"]) for opt in case["opts"]]
     return ev
 
@@ -267,6 +333,15 @@ def all_opts(m, n, options):
                 for k in (0, 1, 2):
                     out.append({"method": meth, "over": over, "niter": 2, "mask": "off", "k": k, "flip": "off", "nonneg": "off",
                                 "via": "interface", "pow2": 0, "form": form})
+    # ways of making the same call (SVDContract.ValidHow), rotating over the grid
+    for j, o in enumerate(out):
+        o["cform"] = ("mixed", "pos", "kw")[j % 3]
+        o["retry"] = j % 7 == 3
+        o["entry"] = "svd"
+        if o["via"] == "interface" or o["method"] == "truncated_svd":
+            o["entry"] = ("svd", "tenalg", "svd", "tl")[(j // 3) % 4]
+        o["path"] = "helpers" if (o["via"] == "interface" and o["form"] == "name" and o["mask"] == "off" and (j // 2) % 3 == 1) else "interface"
+        o["nnspell"] = {"off": ("omitted", "none", "false")[(j // 5) % 3], "nndsvda": ("true", "name")[(j // 5) % 2], "nndsvd": "name"}[o["nonneg"]]
     return out
 
 
@@ -305,7 +380,8 @@ def run(chk, opts):
         pick = group if len(group) <= per else rng.sample(group, per)
         for c in pick:
             cases.append({"id": "C05/x/%dx%d/%05d" % (c["m"], c["n"], len(cases)), "cfg": c, "full": True,
-                          "opts": all_opts(c["m"], c["n"], options), "seed": rng.randrange(2**31)})
+                          "opts": all_opts(c["m"], c["n"], options), "seed": rng.randrange(2**31),
+                          "zeros": ("pos", "neg", "pos", "sub")[len(cases) % 4]})
     n_exact = len(cases)
     if thorough or opts.get("measured"):
         k = 0
